@@ -52,6 +52,7 @@ def step (d : DSt) (line : String) : DSt × Option String :=
   let st := d.st
   match ws with
   | ["sinit"] => ({}, none)
+  | ["srestart"] => (d, none)   -- the server is started again on the same disk (`simple.MakeNfs` / `simple.Recover`): nothing changes
   | ["sround-begin"] => ({ d with round := some [] }, none)
   | "sround-end" :: final =>
     -- the operations of the round ran concurrently: SOME order of them must explain every reply
